@@ -15,5 +15,5 @@ for c in "$@"; do
   elif echo "$out" | grep -q "OK property"; then r="missed"; else r="error"; fi
   line="$line $c=$r"
 done
-rm -rf $scratch
+rm -rf $scratch /verif/out/scratch-$(basename $scratch)
 echo "$line"
